@@ -159,7 +159,13 @@ def gen_asset_rows(rng, asset, exchanges, holders, flags, start_year):
             gap = dt.timedelta(days=rng.randint(200, 500), seconds=rng.randint(1, 86399))
         if flags.get("micro") and rng.random() < 0.3:
             gap += dt.timedelta(microseconds=rng.randint(1, 999999))
-        t = t + gap
+        t2 = t + gap
+        if flags.get("boundaries", True) and rng.random() < 0.12:
+            # land within +/-14 h of a New Year (UTC): the local year/date of the event then depends on the offset it is written with
+            edge = dt.datetime(t2.year + rng.choice([0, 1]), 1, 1, tzinfo=UTC) + dt.timedelta(seconds=rng.randint(-14 * 3600, 14 * 3600))
+            if edge > t + dt.timedelta(seconds=1):
+                t2 = edge
+        t = t2
         return t
 
     def base(table):
